@@ -16,7 +16,7 @@ CHECKS["C08"] = {
                   "key (shared prefixes, equal XOR folds, wildcard/specific source and destination, all directions, "
                   "chained IDs); in every state every telegram derived from the universe is looked up on the real "
                   "MessageMap::find with all 16 flag combinations and compared with a linear-scan reference",
-    "level_note": "bounded: at most 3 (thorough 4) definitions per map, one PBSB, no conditions (availability is C13); "
+    "level_note": "bounded: at most 3 (thorough 4) definitions per map, one PBSB, two simple conditions on one referenced message (condition evaluation itself is C13); "
                   "trusts the reference matcher (self-tested with hand traces at every start) and the loader's own "
                   "duplicate rejection as the definition of 'loaded'",
     "technique": "explicit-state exploration of the real MessageMap over all ordered definition subsets with a linear-scan reference matcher",
@@ -29,19 +29,26 @@ CHECKS["C08"] = {
             "definition surely matches, a result is required and its ID length must not be shorter than the longest "
             "sure match. Undecided: source of active definitions, wildcard-destination definitions when "
             "anyDestination=false and vice versa. states = ordered subsets, transitions = loader calls + lookups, "
-            "distinct = (state, telegram) pairs with two or more candidate definitions (recorded for states of size<=3).",
+            "distinct = (state, telegram) pairs with two or more candidate definitions (recorded for states of size<=3). "
+            "Availability pass: 7 conditional definitions ([isA]/[isB] on a message of another PBSB; same "
+            "direction/QQ/ZZ/PBSB/ID as each other or as unconditional ones) with 12 unconditional partners, every "
+            "ordered subset up to the size bound that contains a conditional one, each in 5 environments (condition "
+            "message never received / value 1 / 2 / 3 with onlyAvailable=true, value 3 with onlyAvailable=false): "
+            "with onlyAvailable=true only definitions whose condition holds count as matching and an unavailable "
+            "result is a violation; isAvailable() of every loaded definition is first compared with the environment "
+            "model (a disagreement caps the run instead of judging the state).",
     "assumptions": [
         "definitions are 'loaded' when the loader accepted them (duplicates rejected by MessageMap::add are not part of the state)",
-        "all definitions unconditional (availability through conditions is covered by C13)",
+        "condition evaluation itself is C13's subject: C08 uses two simple numeric conditions, sets the referenced value once per state under a virtual clock and checks isAvailable() against its model before judging",
         "the largest subset size of a tier (quick 3, thorough 4) uses the telegrams derived from the subset's members only; thorough size 4 draws from a 28-definition core of the universe (all 40: harness option --corelast 0, about 2600 CPU s)",
     ],
     "runs": [{
         "harness": "c08_find", "sources": ["engines/msgmc/c08_find.cpp"], "deps": ["engines/msgmc/c08_universe.h"],
         "variant": "plain", "libset": "core",
         "quick": {"parts": 16, "deadline": 55,
-                  "bounds": "40 definitions; all ordered subsets of size<=2 x all telegrams; size 3 x member-derived telegrams; 16 flag combinations"},
+                  "bounds": "40 unconditional definitions: all ordered subsets of size<=2 x all telegrams, size 3 x member-derived telegrams; 7 conditional + 12 partner definitions: ordered subsets of size<=3 containing a conditional one x 5 environments; 16 flag combinations"},
         "thorough": {"parts": 16, "deadline": 840,
-                     "bounds": "40 definitions; all ordered subsets of size<=3 x all telegrams; size 4 over the 28-definition core x member-derived telegrams; 16 flag combinations"},
+                     "bounds": "40 definitions; all ordered subsets of size<=3 x all telegrams; size 4 over the 28-definition core x member-derived telegrams; 7 conditional + 12 partner definitions: ordered subsets of size<=4 containing a conditional one x 5 environments; 16 flag combinations"},
     }],
 }
 
@@ -53,7 +60,8 @@ CHECKS["C09"] = {
                   "explicit and implicit lengths) is loaded by the real loader and driven through the real "
                   "prepareMaster -> find -> storeLastData -> decodeLastData with every input combination of the value "
                   "domains; for chained messages the operation histories 'parts arrive in every order with every gap "
-                  "pattern from {0,1,16*parts} s, followed by a second round with other values' are enumerated "
+                  "pattern from {0,1,16*parts} s, followed by a second round with other values and a third, much later "
+                  "round observed after every part' are enumerated "
                   "completely under a virtual clock",
     "level_note": "bounded: two values per field, at most 3 fields, 2-3 chain parts; trusts the per-kind reference "
                   "codec table (text <-> bytes written from the type definitions) and the virtual time() defined in "
@@ -65,7 +73,10 @@ CHECKS["C09"] = {
             "find(telegram) == that definition, decode(store(telegram, answer)) == supplied and received values "
             "(compared as name=value multiset); chained: every part carries its ID and its defined number of data "
             "bytes, the parts in order reproduce the encoded value, and after all parts arrived within a small gap "
-            "(and again after a second round with other values) the decoded value is the joined one. Not judged: "
+            "(and again after a second round with other values) the decoded value is the joined one; a third round "
+            "16*parts s later (first values again, parts in the order of the history) is decoded after every part: "
+            "while incomplete the value must be the previous complete one or the new one (or a failure), never "
+            "parts of both rounds joined, and the new one when complete. Not judged: "
             "which valid definitions the loader rejects (counted), the result of a round that contains a gap of "
             "16*parts s, byte value of ignored master fields. states = (definition, values, arrival prefix), "
             "transitions = API calls, distinct = distinct loaded definitions.",
